@@ -8,7 +8,7 @@
     blocks, and the unread bytes are moved to the front when at most `MaxNDNPacketSize` of them
     remain.
   * `std/engine/face/stream_face.go` `StreamFace.Run` (lines 25–72): reads T, L, then exactly L
-    bytes through a `bufio.Reader`, re-encodes T and L in front of the value.
+    bytes through a `bufio.Reader`, puts the T and L bytes as received in front of the value.
 
   The bytes in front of `tlvOff` are dead (never read again), so the state keeps `tlvOff` and the
   unread bytes `recvBuf[tlvOff:recvOff]`; `recvOff = tlvOff + unread.length`.
@@ -34,9 +34,10 @@ def toI64 (x : Nat) : Int :=
 def wrapI64 (i : Int) : Int :=
   if i ≥ 9223372036854775808 then i - 18446744073709551616 else i
 
-/-- `tlvSize := typ.EncodingLength() + len.EncodingLength() + int(len)` -/
-def tlvSize (typ len : Nat) : Int :=
-  wrapI64 ((tlLen typ : Int) + (tlLen len : Int) + toI64 len)
+/-- `rdr.Pos() + int(len)` resp. `len(hdr) + int(l)`: header bytes consumed plus the value length,
+    in Go `int` arithmetic -/
+def hdrSize (hdr len : Nat) : Int :=
+  wrapI64 ((hdr : Int) + toI64 len)
 
 /-- why the inner loop / the whole function stopped -/
 inductive Status
@@ -48,19 +49,20 @@ inductive Status
 
 /-- The inner `for` loop of `readTlvStream` on the unread region `u = recvBuf[tlvOff:recvOff]`:
     delivered frames, the bytes still unread afterwards, and how the loop ended.
-    After the guard `uint64(len) > uint64(cap(recvBuf))` the Go `int` arithmetic
-    `typ.EncodingLength() + len.EncodingLength() + int(len)` is exact (`tlvSize_exact`), so the size
-    is the natural number `tlLen typ + tlLen len + len`. -/
+    `tlvSize := rdr.Pos() + int(len)`: the block is as long as what `ReadTLNum` consumed of it for
+    T and L (whatever form they were sent in — repair F-11b; before it the code re-measured T and L
+    with `EncodingLength()`, i.e. assumed the shortest form) plus the value.  After the guard
+    `uint64(len) > uint64(cap(recvBuf))` the Go `int` arithmetic is exact (`hdrSize_exact`). -/
 def parseLoop (u : Bytes) : List Bytes × Bytes × Status :=
   match h1 : decTL u with
   | none => ([], u, .more)                       -- ReadTLNum(typ) failed
   | some (typ, r1) =>
-    match decTL r1 with
+    match h2 : decTL r1 with
     | none => ([], u, .more)                     -- ReadTLNum(len) failed
-    | some (len, _) =>
+    | some (len, r2) =>
       if len > cap then ([], u, .tooBig)         -- can never fit in the receive buffer
       else
-        let sz := tlLen typ + tlLen len + len
+        let sz := (u.length - r2.length) + len   -- rdr.Pos() + int(len)
         if u.length ≥ sz then                    -- recvOff-tlvOff >= tlvSize
           let r := parseLoop (u.drop sz)
           (u.take sz :: r.1, r.2.1, r.2.2)
@@ -68,9 +70,8 @@ def parseLoop (u : Bytes) : List Bytes × Bytes × Status :=
         else ([], u, .more)
 termination_by u.length
 decreasing_by
-  have := decTL_rest_lt h1
-  have : 1 ≤ tlLen typ := by unfold tlLen; repeat' split
-                             all_goals omega
+  have a := decTL_rest_lt h1
+  have b := decTL_rest_lt h2
   simp only [List.length_drop]
   omega
 
@@ -147,10 +148,12 @@ def runE (s : St) (script : List ReadRes) : List Bytes × Outcome := run s (scri
 
 /-! ### application side: `StreamFace.Run` -/
 
-/-- The loop of `StreamFace.Run` over the bytes received so far: `ReadTLNum`, `ReadTLNum`,
-    `io.ReadFull` of exactly L bytes, frame = re-encoded T ++ re-encoded L ++ value.  Returns the
-    delivered frames and the bytes not yet consumed into a complete frame (T/L/value prefix the
-    goroutine is blocked on).  `make([]byte, l0+l1+int(l))` with a negative size panics. -/
+/-- The loop of `StreamFace.Run` over the bytes received so far: `ReadTLNum`, `ReadTLNum` through a
+    reader that keeps the header bytes as they arrive, `io.ReadFull` of exactly L bytes,
+    frame = the received T and L bytes ++ value (repair F-11c; before it T and L were re-encoded in
+    the shortest form, so a block sent in another form reached the engine with other bytes).
+    Returns the delivered frames and the bytes not yet consumed into a complete frame (T/L/value
+    prefix the goroutine is blocked on).  `make([]byte, l0+int(l))` with a negative size panics. -/
 def appLoop (u : Bytes) : List Bytes × Bytes × Status :=
   match h1 : decTL u with
   | none => ([], u, .more)
@@ -158,10 +161,10 @@ def appLoop (u : Bytes) : List Bytes × Bytes × Status :=
     match h2 : decTL r1 with
     | none => ([], u, .more)
     | some (len, r2) =>
-      if tlvSize typ len < 0 ∨ toI64 len < 0 then ([], u, .panic)
+      if hdrSize (u.length - r2.length) len < 0 ∨ toI64 len < 0 then ([], u, .panic)
       else if r2.length ≥ len then
         let r := appLoop (r2.drop len)
-        ((encTL typ ++ encTL len ++ r2.take len) :: r.1, r.2.1, r.2.2)
+        ((u.take (u.length - r2.length) ++ r2.take len) :: r.1, r.2.1, r.2.2)
       else ([], u, .more)
 termination_by u.length
 decreasing_by
